@@ -51,10 +51,11 @@ class Cell:
 
 
 class Event:
-    __slots__ = ("kind", "node", "data", "func", "depth", "seq")
+    __slots__ = ("kind", "node", "data", "func", "depth", "seq", "_fp")
 
     def __init__(self, kind, node, data, func, depth, seq=0):
         self.kind, self.node, self.data, self.func, self.depth, self.seq = kind, node, data, func, depth, seq
+        self._fp = None
 
     def __repr__(self):
         return "<%s %s @%s:%s>" % (self.kind, self.data, self.func.qualname if self.func else "?", getattr(self.node, "lineno", "?"))
@@ -185,6 +186,8 @@ class InterpBase:
                 return True
             if v.key() in st.extra.get("nonzero", ()):
                 return True
+            if v.key() in st.extra.get("zero", ()):
+                return False
             iv = interval(v)
             if iv is not None and iv[0] is not None and iv[0] > 0:
                 return True
